@@ -53,7 +53,40 @@ func hexStr(s string) string {
 }
 
 // obsWktParse: wkt.Unmarshal and, on a syntax error, its rendered message.
+// scribble changes a geometry the caller has been handed (every point gets coordinates, every
+// ordinate array is written to): what was returned once belongs to the caller.
+func scribble(g geom.T) {
+	defer func() { _ = recover() }()
+	switch g := g.(type) {
+	case *geom.Point:
+		c := make(geom.Coord, g.Layout().Stride())
+		for i := range c {
+			c[i] = float64(1000 + i)
+		}
+		g.MustSetCoords(c)
+	case *geom.GeometryCollection:
+		for _, m := range g.Geoms() {
+			scribble(m)
+		}
+	default:
+		f := g.FlatCoords()
+		for i := range f {
+			f[i] = -f[i] - 1
+		}
+	}
+}
+
 func obsWktParse(text string) (out string, g geom.T) {
+	// every other time the text is parsed twice, the first result being scribbled on in between:
+	// the parser hands out fresh geometries
+	if len(text)%2 == 1 {
+		func() {
+			defer func() { _ = recover() }()
+			if v, err := wkt.Unmarshal(text); err == nil {
+				scribble(v)
+			}
+		}()
+	}
 	out = guard(func() string {
 		v, err := wkt.Unmarshal(text)
 		if err != nil {
